@@ -44,6 +44,7 @@ func (f *Frame) clone() *Frame {
 		n.loops[k] = v
 	}
 	n.defers = append([]*ssa.Defer(nil), f.defers...)
+	n.deferSt = append([]map[ssa.Value]*Val(nil), f.deferSt...)
 	return &n
 }
 
@@ -78,6 +79,8 @@ type Exec struct {
 	kvHandles  map[string]kvHandle
 	authT      *authTypes
 	noC09      bool
+	panicMode  bool
+	panicProps []string
 }
 
 func NewExec(p *Program) *Exec {
@@ -322,6 +325,12 @@ func (x *Exec) globalVal(st *State, g *ssa.Global) *Val {
 		return &Val{K: VFunc, Typ: t, Lib: "globfn:" + g.Pkg.Pkg.Path() + "." + g.Name()}
 	}
 	v := freshVal(t, name, false)
+	if v.K == VStr {
+		if n, ok := x.P.globalBytesLen(g); ok {
+			st.Assume(Eq(StrLen(v.T), Num(int64(n))))
+			st.Assume(Neq(v.T, bytesNil))
+		}
+	}
 	// registered errors and other pointer / interface globals of dependencies are non-nil
 	if !strings.HasPrefix(g.Pkg.Pkg.Path(), repoModule) || true {
 		switch v.K {
@@ -514,23 +523,23 @@ func (x *Exec) branch(fr *Frame, st *State, b *ssa.BasicBlock, c *Term) {
 }
 
 func (x *Exec) runDefers(fr *Frame, st *State, i int, k func(st *State)) {
+	// work on copies: a deferred call may return along several paths, each continuing with the remaining defers
+	x.runDefersFrom(fr, st, append([]*ssa.Defer(nil), fr.defers...), append([]map[ssa.Value]*Val(nil), fr.deferSt...), i, k)
+}
+
+func (x *Exec) runDefersFrom(fr *Frame, st *State, defers []*ssa.Defer, snaps []map[ssa.Value]*Val, i int, k func(st *State)) {
 	if i < 0 {
-		fr.defers = nil
-		fr.deferSt = nil
 		k(st)
 		return
 	}
-	d := fr.defers[i]
+	d := defers[i]
 	// evaluate with the argument snapshot taken at the defer statement
-	saved := map[ssa.Value]*Val{}
-	for v, val := range fr.deferSt[i] {
-		if old, ok := fr.regs[v]; ok {
-			saved[v] = old
-		}
-		fr.regs[v] = val
+	f2 := fr.clone()
+	for v, val := range snaps[i] {
+		f2.regs[v] = val
 	}
-	x.call(fr, st, d, &d.Call, func(st2 *State, _ *Val) {
-		x.runDefers(fr, st2, i-1, k)
+	x.call(f2, st, d, &d.Call, func(st2 *State, _ *Val) {
+		x.runDefersFrom(fr, st2, defers, snaps, i-1, k)
 	})
 }
 
@@ -849,7 +858,17 @@ func (x *Exec) convert(fr *Frame, st *State, v *ssa.Convert) {
 		x.rangeCheck(fr, st, v, a.T, v.Type(), "overflow-convert")
 		fr.regs[v] = intVal(a.T, v.Type())
 	case from == VStr && to == VStr:
-		fr.regs[v] = strVal(a.T, v.Type())
+		_, toBytes := types.Unalias(v.Type()).Underlying().(*types.Slice)
+		_, fromBytes := types.Unalias(v.X.Type()).Underlying().(*types.Slice)
+		r := a.T
+		if toBytes && !fromBytes {
+			// []byte(s) is never the nil slice
+			st.Assume(Neq(r, bytesNil))
+		} else if !toBytes && fromBytes {
+			// string(nil []byte) is ""
+			r = Ite(Eq(a.T, bytesNil), emptyStr, a.T)
+		}
+		fr.regs[v] = strVal(r, v.Type())
 	default:
 		x.note(fmt.Sprintf("unmodelled conversion %s -> %s", typeString(v.X.Type()), typeString(v.Type())))
 		r := freshVal(v.Type(), "conv", true)
